@@ -67,7 +67,40 @@ type c10w struct {
 	Want  interface{} `json:"want,omitempty"`
 }
 
-var c10Cased = alphabet.MustComplement(alphabet.NewComplementor("ACGT", feat.DNA, alphabet.MustPair(alphabet.NewPairing("ACGT", "TGCA")), '-', 'N', alphabet.CaseSensitive))
+// the two custom alphabets are built on first use, inside a case: a library change that makes a constructor refuse (or
+// panic on) these valid definitions must show as that case's violation, not as a crash of the whole harness at start-up
+var c10Cased, c10UpperDef alphabet.Complementor
+var c10CustomErr string
+
+func c10Custom() string {
+	if c10Cased != nil || c10CustomErr != "" {
+		return c10CustomErr
+	}
+	defer func() {
+		if p := recover(); p != nil {
+			c10CustomErr = fmt.Sprintf("constructing a valid four-letter alphabet panicked: %v", p)
+		}
+	}()
+	mk := func(letters, ps, pc string, cased bool) alphabet.Complementor {
+		pr, err := alphabet.NewPairing(ps, pc)
+		if err != nil {
+			c10CustomErr = fmt.Sprintf("NewPairing(%q,%q): %v", ps, pc, err)
+			return nil
+		}
+		c, err := alphabet.NewComplementor(letters, feat.DNA, pr, '-', 'N', cased)
+		if err != nil {
+			c10CustomErr = fmt.Sprintf("NewComplementor(%q, pairing %q<->%q, case sensitive %v): %v", letters, ps, pc, cased, err)
+			return nil
+		}
+		return c
+	}
+	a, b := mk("ACGT", "ACGT", "TGCA", alphabet.CaseSensitive), mk("ACGT", "ACGTacgt", "TGCAtgca", !alphabet.CaseSensitive)
+	if c10CustomErr == "" {
+		c10Cased, c10UpperDef = a, b
+		c10Alphas[2].a, c10Alphas[3].a = a, b
+	}
+	return c10CustomErr
+}
 
 type c10alpha struct {
 	name    string
@@ -79,12 +112,10 @@ type c10alpha struct {
 var c10Alphas = []c10alpha{
 	{"DNA", alphabet.DNA, "acgt", false},
 	{"RNA", alphabet.RNA, "acgu", false},
-	{"cased-ACGT", c10Cased, "ACGT", true},
-	{"uncased-defined-as-ACGT", c10UpperDef, "acgt", false},
+	{"cased-ACGT", nil, "ACGT", true},                // filled in by c10Custom
+	{"uncased-defined-as-ACGT", nil, "acgt", false}, // a case-insensitive alphabet whose definition is written in upper case
 }
 
-// a case-insensitive alphabet whose definition is written in upper case
-var c10UpperDef = alphabet.MustComplement(alphabet.NewComplementor("ACGT", feat.DNA, alphabet.MustPair(alphabet.NewPairing("ACGTacgt", "TGCAtgca")), '-', 'N', !alphabet.CaseSensitive))
 
 func (a c10alpha) code(b byte) int {
 	if !a.cased && b >= 'A' && b <= 'Z' {
@@ -547,6 +578,10 @@ func c10Case(r *obs.Run, i int) {
 	}
 	// random
 	rng := r.Rng
+	if e := c10Custom(); e != "" {
+		r.Violate("alphabet-constructor", "a valid four-letter alphabet definition is not accepted: "+e, map[string]interface{}{"what": e})
+		return
+	}
 	a := c10Alphas[rng.Intn(len(c10Alphas))]
 	kmax := r.Pick(10, 12)
 	k := 4 + rng.Intn(kmax-3)
